@@ -171,11 +171,11 @@ def run(R):
     vd = R.body("C03.evm", VDP)
     if vd is not None:
         prep(vd)
-        if FieldBoolGuard("isValid", True).edges(vd)[0]:
+        if FieldBoolGuard("isValid", True).edges(vd)[1]:
             R.gate_reject("C03.evm.valid", vd, RetSink("Ok", computed=True), [FieldBoolGuard("isValid", True, "every PaymentVerificationResult.isValid")],
                           descr="verify_data_payment is Ok only if the contract reports every submitted quote as paid")
         else:
-            # the per-result test sits in the closure of a try_fold / try_for_each: decided by C03.evm.valid.every below
+            # the per-result test sits in the closure of a try_fold / try_for_each, or the verdicts are folded into a flag (`ok &= r.isValid`): decided by C03.evm.valid.every below
             R.inst("C03.evm.valid", "K4r reject-edge", "verify_data_payment is Ok only if the contract reports every submitted quote as paid (combinator form: see C03.evm.valid.every)", 1, True)
         R.gate("C03.evm.valid.every", vd, RetSink("Ok", computed=True),
                [[ForallGuard(None, None, None, "every verification result returned by the contract has isValid",
